@@ -175,20 +175,23 @@ Proof.
       rewrite (IH _ x Hr Hc). reflexivity.
 Qed.
 
-(* the three shapes of a well-behaved script *)
+(* the four shapes of a well-behaved script *)
 Inductive wb_shape : list op -> headers -> option Z -> list bytes -> Prop :=
 | shape_nil hs : forallb is_hdr hs = true -> wb_shape hs (apply_hdrs hs []) None []
 | shape_wh hs c ws : forallb is_hdr hs = true -> forallb is_body ws = true ->
     wb_shape (hs ++ OWriteHeader c :: ws) (apply_hdrs hs []) (Some c) (writes ws)
 | shape_w hs b ws : forallb is_hdr hs = true -> forallb is_body ws = true ->
-    wb_shape (hs ++ OWrite b :: ws) (apply_hdrs hs []) (Some 200%Z) (b :: writes ws).
+    wb_shape (hs ++ OWrite b :: ws) (apply_hdrs hs []) (Some 200%Z) (b :: writes ws)
+| shape_f hs ws : forallb is_hdr hs = true -> forallb is_body ws = true ->
+    wb_shape (hs ++ OFlush :: ws) (apply_hdrs hs []) (Some 200%Z) (writes ws).
 
 Lemma wb_shape_of s : wb s = true -> exists H oc wr, wb_shape s H oc wr.
 Proof.
   intros Hwb.
   assert (G : exists hs bs, s = hs ++ bs /\ forallb is_hdr hs = true /\
             (bs = [] \/ (exists c ws, bs = OWriteHeader c :: ws /\ forallb is_body ws = true)
-                     \/ (exists b ws, bs = OWrite b :: ws /\ forallb is_body ws = true))).
+                     \/ (exists b ws, bs = OWrite b :: ws /\ forallb is_body ws = true)
+                     \/ (exists ws, bs = OFlush :: ws /\ forallb is_body ws = true))).
   { induction s as [|o s IH].
     - exists [], []. repeat split; auto.
     - simpl in Hwb. destruct (is_hdr o) eqn:Ho.
@@ -198,11 +201,14 @@ Proof.
         * exists [], (OWriteHeader code :: s). repeat split; auto.
           right; left. exists code, s. split; auto.
         * exists [], (OWrite b :: s). repeat split; auto.
-          right; right. exists b, s. split; auto. }
-  destruct G as (hs & bs & -> & Hhs & [-> | [(c & ws & -> & Hws) | (b & ws & -> & Hws)]]).
+          right; right; left. exists b, s. split; auto.
+        * exists [], (OFlush :: s). repeat split; auto.
+          right; right; right. exists s. split; auto. }
+  destruct G as (hs & bs & -> & Hhs & [-> | [(c & ws & -> & Hws) | [(b & ws & -> & Hws) | (ws & -> & Hws)]]]).
   - rewrite app_nil_r. do 3 eexists. apply shape_nil. exact Hhs.
   - do 3 eexists. apply shape_wh; assumption.
   - do 3 eexists. apply shape_w; assumption.
+  - do 3 eexists. apply shape_f; assumption.
 Qed.
 
 Definition closed_plain (H : headers) (oc : option Z) (wr : list bytes) : uw :=
@@ -210,7 +216,7 @@ Definition closed_plain (H : headers) (oc : option Z) (wr : list bytes) : uw :=
 
 Lemma plain_of_shape s H oc wr : wb_shape s H oc wr -> run_plain s = closed_plain H oc wr.
 Proof.
-  intros Hs. unfold run_plain, closed_plain. destruct Hs as [hs Hhs | hs c ws Hhs Hws | hs b ws Hhs Hws].
+  intros Hs. unfold run_plain, closed_plain. destruct Hs as [hs Hhs | hs c ws Hhs Hws | hs b ws Hhs Hws | hs ws Hhs Hws].
   - rewrite plain_hdrs by exact Hhs. reflexivity.
   - rewrite fold_left_app. rewrite (plain_hdrs hs) by exact Hhs. simpl fold_left.
     unfold uw_sethdr at 1. simpl u_hdr. simpl u_commit. simpl u_body.
@@ -222,6 +228,11 @@ Proof.
     unfold uw_write at 1. unfold uw_commit at 1 2 3. simpl.
     rewrite (plain_body ws _ (200%Z, apply_hdrs hs []) Hws) by reflexivity. simpl.
     reflexivity.
+  - rewrite fold_left_app. rewrite (plain_hdrs hs) by exact Hhs. simpl fold_left.
+    unfold uw_sethdr at 1. simpl u_hdr. simpl u_commit. simpl u_body.
+    unfold uw_commit at 1. simpl.
+    rewrite (plain_body ws _ (200%Z, apply_hdrs hs []) Hws) by reflexivity. simpl.
+    rewrite app_nil_r. reflexivity.
 Qed.
 
 Section WithTables.
@@ -244,6 +255,9 @@ Proof.
     unfold g_with_u, uw_sethdr, apply_hdrs. simpl. reflexivity.
 Qed.
 
+Lemma rf_flush_written c g : g_rfw g = true -> rf_flush c g = g_with_u (uw_commit 200) g.
+Proof. unfold rf_flush. intros ->. reflexivity. Qed.
+
 (* body phase when the filters said "do not compress": the layer is transparent plumbing *)
 Lemma gz_body_plain c ws : forall g, forallb is_body ws = true -> g_rfw g = true -> g_should g = false ->
   fold_left (gstep c) ws g = g_with_u (fun u => fold_left pstep ws u) g.
@@ -255,7 +269,8 @@ Proof.
     destruct o; simpl in Ho; try discriminate.
     + cbn [fold_left gstep]. unfold rf_write. cbn [g_rfw g_should g_u g_gzw g_active g_ws].
       rewrite IH by (try exact Hws; reflexivity). reflexivity.
-    + cbn [fold_left gstep]. unfold g_with_u at 2. cbn [g_rfw g_should g_u g_gzw g_active g_ws].
+    + cbn [fold_left gstep]. rewrite rf_flush_written by reflexivity.
+      unfold g_with_u at 2. cbn [g_rfw g_should g_u g_gzw g_active g_ws].
       rewrite IH by (try exact Hws; reflexivity). reflexivity.
 Qed.
 
@@ -275,7 +290,8 @@ Proof.
       rewrite (IH _ x Hws) by (try reflexivity; exact Hc).
       cbn [g_rfw g_should g_u g_gzw g_active g_ws writes flat_map]. simpl rev.
       rewrite <- app_assoc. reflexivity.
-    + cbn [fold_left gstep]. unfold g_with_u. cbn [g_rfw g_should g_u g_gzw g_active g_ws].
+    + cbn [fold_left gstep]. rewrite rf_flush_written by reflexivity.
+      unfold g_with_u. cbn [g_rfw g_should g_u g_gzw g_active g_ws].
       rewrite (uw_commit_committed _ _ _ Hc).
       rewrite (IH _ x Hws) by (try reflexivity; exact Hc). reflexivity.
 Qed.
@@ -312,7 +328,7 @@ Lemma gz_of_shape c s H oc wr : wb_shape s H oc wr ->
   end.
 Proof.
   intros Hs. pose proof (plain_of_shape _ _ _ _ Hs) as Hp.
-  destruct Hs as [hs Hhs | hs code ws Hhs Hws | hs b ws Hhs Hws].
+  destruct Hs as [hs Hhs | hs code ws Hhs Hws | hs b ws Hhs Hws | hs ws Hhs Hws].
   - rewrite Hp. unfold run_gz. rewrite after_hdrs by exact Hhs. reflexivity.
   - unfold run_gz. rewrite fold_left_app. rewrite (after_hdrs c hs) by exact Hhs.
     cbn [fold_left gstep].
@@ -339,6 +355,20 @@ Proof.
       unfold uw_write at 1. unfold uw_commit at 1 2 3. cbn [u_commit u_hdr u_body].
       rewrite (plain_body ws _ (200%Z, apply_hdrs hs []) Hws) by reflexivity.
       unfold closed_plain. cbn. reflexivity.
+  - unfold run_gz. rewrite fold_left_app. rewrite (after_hdrs c hs) by exact Hhs.
+    cbn [fold_left gstep]. unfold rf_flush at 1. cbn [g_rfw gH].
+    fold (gH (apply_hdrs hs [])).
+    destruct (resp_ok c (apply_hdrs hs [])) eqn:Hok.
+    + rewrite rfwh_true by exact Hok. unfold g_with_u at 1, uw_commit at 1.
+      cbn [g_rfw g_should g_u g_gzw g_active g_ws u_commit].
+      erewrite gz_body_comp; try reflexivity; try exact Hws.
+      unfold g_finish, closed_gz. cbn. rewrite app_nil_r, rev_involutive. reflexivity.
+    + rewrite Hp. rewrite rfwh_false by exact Hok. unfold g_with_u at 1, uw_commit at 1.
+      cbn [g_rfw g_should g_u g_gzw g_active g_ws u_commit].
+      rewrite gz_body_plain by (try exact Hws; reflexivity).
+      unfold g_finish, g_with_u. cbn [g_active g_u].
+      rewrite (plain_body ws _ (200%Z, apply_hdrs hs []) Hws) by reflexivity.
+      unfold closed_plain. cbn. rewrite app_nil_r. reflexivity.
 Qed.
 
 End WithTables.
@@ -557,8 +587,9 @@ Proof.
   destruct (wb_shape_of s Hwb) as (H & oc & wr & Hs).
   rewrite (gz_of_shape c s H oc wr Hs).
   rewrite (plain_of_shape _ _ _ _ Hs), hdr_plain in Hok.
-  destruct Hs as [hs Hhs | hs code ws Hhs Hws | hs b ws Hhs Hws].
+  destruct Hs as [hs Hhs | hs code ws Hhs Hws | hs b ws Hhs Hws | hs ws Hhs Hws].
   - congruence.
+  - rewrite Hok. reflexivity.
   - rewrite Hok. reflexivity.
   - rewrite Hok. reflexivity.
 Qed.
@@ -689,15 +720,6 @@ Qed.
 
 Definition bare : gcfg := {| c_exts := []; c_not := []; c_min := 0 |}.
 Definition dexts_min : list bytes := [[]; bs ".txt"].
-
-Lemma flush_first_witness :
-  let s := [OFlush; OWrite [1; 2; 3]] in
-  let out := gzip_serve dexts_min false [bare] (bs "/x") (bs "gzip") s in
-  r_ce (run_plain s) = [] /\ applied out = [GZIP] /\ r_ce out = [] /\
-  forall gz, wire gz false out = gz [[1; 2; 3]] /\ wire gz false (run_plain s) = [1; 2; 3].
-Proof.
-  vm_compute. repeat split; auto. apply app_nil_r.
-Qed.
 
 Lemma repeated_writeheader_witness :
   let s := [OWriteHeader 200; OWriteHeader 200; OWrite [1; 2; 3]] in
